@@ -61,7 +61,7 @@ def testdata_cases():
 def run(ctx):
     rng = ctx.rng
     nprog = ctx.budget(220, 3000)
-    ncorr = ctx.budget(60, 400)     # programs whose references are also run through the Coq model
+    ncorr = ctx.budget(45, 400)     # programs whose references are also run through the Coq model
     ctx.rule = ("hand-written programs with shadowing names + every compilable .proto of the repository's internal/testdata (each against the root directory it is written for) + %d generated "
                 "multi-file programs (proto2/proto3/editions, imports incl. public, type references spelled absolute / fully qualified / relative to an enclosing "
                 "message or package prefix, maps, groups, extensions, custom options with message values, services, feature overrides); each compiled and its "
@@ -90,7 +90,7 @@ def run(ctx):
             continue
         seen_td.add(c["origin"])
         cases.append(c)
-    outs = ctx.impl("relink", [{k: c[k] for k in c if k != "origin"} for c in cases])
+    outs = ctx.impl("relink", [{k: c[k] for k in c if k != "origin"} for c in cases], shards=NCPU)
     terms, meta = [], []
     stats = {"accepted": 0, "rejected": 0, "testdata_accepted": 0, "testdata_rejected": 0, "refs": 0, "relative_refs": 0,
              "bytewise_equal_after_reserialising": 0, "corr_skipped": 0}
@@ -163,7 +163,7 @@ def run(ctx):
     ctx.extra["t_before_coq"] = round(_t.time() - ctx.t0, 1)
     ctx.extra["coq_terms"] = len(uterms)
     ctx.extra["coq_bytes"] = sum(len(t) for t in uterms)
-    mism, err = coq_eval_mismatches("cases_C10", header, uterms, "relink_chk", shard_size=40)
+    mism, err = coq_eval_mismatches("cases_C10", header, uterms, "relink_chk", shard_size=ctx.budget(10, 25))
     ctx.extra["t_after_coq"] = round(_t.time() - ctx.t0, 1)
     if err:
         raise RuntimeError(err)
